@@ -37,11 +37,19 @@ def main():
     ran.append({"cmd": "pytest tests (with change)", "rc": rc_t, "tail": out_t.strip().splitlines()[-1:]})
     rc_d1, out_d1 = sh("/venv/bin/python demo.py", wt, env, timeout=300)
     ran.append({"cmd": "demo.py (with change)", "rc": rc_d1, "tail": out_d1.strip().splitlines()[-3:]})
-    sh("git stash", wt)
+    # NOT git stash: the stash is shared between all worktrees of one repository
+    pfile = os.path.join(wt, ".ingest.patch")
+    with open(pfile, "w") as fh:
+        fh.write(diff)
+    rc_r, out_r = sh(f"git apply -R {pfile}", wt)
+    if rc_r != 0:
+        print("cannot reverse the change:", out_r)
+        return 1
     try:
         rc_d0, out_d0 = sh("/venv/bin/python demo.py", wt, env, timeout=300)
     finally:
-        sh("git stash pop", wt)
+        sh(f"git apply {pfile}", wt)
+        os.remove(pfile)
     ran.append({"cmd": "demo.py (original)", "rc": rc_d0, "tail": out_d0.strip().splitlines()[-3:]})
     head_repo = subprocess.run("git rev-parse HEAD", cwd="/repo", shell=True, capture_output=True, text=True).stdout.strip()
     head_wt = subprocess.run("git rev-parse HEAD", cwd=wt, shell=True, capture_output=True, text=True).stdout.strip()
